@@ -13,17 +13,14 @@ import (
 	"verifharness/vlib"
 )
 
-// Work is spread over OS processes, not goroutines: every ApplyDiff allocates
-// ~10 MB (rdb.DefaultBatchSize) and every RocksDB open maps and unmaps memory;
-// sixteen threads doing that in ONE address space serialise on the kernel's
-// mmap lock (measured: 16 goroutines were no faster than 1 and burnt 15x the
-// CPU). Each phase therefore re-executes this binary once per worker with a
-// job file; a child runs the items i = shard (mod n) of that phase one after
-// the other and writes what it counted and found; the parent merges. Which
-// items exist and what each does never depends on the number of children.
-
-// Measured on the idle 16-core VM: fresh-memory page faults (10 MB per ApplyDiff, every RocksDB open) are
-// a machine-wide bottleneck - 16 concurrent processes get ~2.5x the throughput of one, 8 are fastest.
+// Work is spread over OS processes, not goroutines: every RocksDB open maps and
+// unmaps memory and starts threads; sixteen threads doing that in ONE address
+// space serialise on the kernel's mmap lock (measured: 16 goroutines were no
+// faster than 1 and burnt 15x the CPU). Each phase therefore re-executes this
+// binary once per worker with a job file; a child runs the items
+// i = shard (mod n) of that phase one after the other and writes what it
+// counted and found; the parent merges. Which items exist and what each does
+// never depends on the number of children.
 const maxProcs = 8
 
 type compGob struct {
@@ -140,10 +137,11 @@ func (w *world) run(phase string, total int, f *findings, b *bfs, extra func(*jo
 		j.Out = filepath.Join(w.scratch, fmt.Sprintf("out-%s-%d.gob", phase, k))
 		jf := filepath.Join(w.scratch, fmt.Sprintf("job-%s-%d.gob", phase, k))
 		writeGob(jf, &j)
-		// one CPU per worker process: its address space then lives on one CPU and the constant
-		// mmap/munmap of RocksDB opens and thread stacks needs no cross-CPU TLB shootdowns
 		cmd := exec.Command(os.Args[0], w.r.Tier, "--c08-child", jf)
-		if ts, err := exec.LookPath("taskset"); err == nil && os.Getenv("VERIF_C08_NOPIN") == "" {
+		// development aid: VERIF_C08_PIN=1 gives every worker process one CPU (fewer cross-CPU TLB shootdowns from
+		// the constant mmap/munmap of RocksDB opens on an idle machine; much slower when the machine is shared,
+		// because a pinned worker cannot move away from a busy CPU). Not the default.
+		if ts, err := exec.LookPath("taskset"); err == nil && os.Getenv("VERIF_C08_PIN") != "" {
 			cmd = exec.Command(ts, "-c", fmt.Sprint(k%runtime.NumCPU()), os.Args[0], w.r.Tier, "--c08-child", jf)
 		}
 		cmd.Stdout, cmd.Stderr = os.Stderr, os.Stderr
